@@ -24,6 +24,15 @@ CHECKS = {
         note="conditioning from a finite-difference Jacobian at the point; declared constants: cubic quadratic_threshold/eps, UMNN bisection, Sigmoid clamp; at kinks either one-sided log-det is accepted",
         ref="DESIGN.md 4/C02",
     ),
+    "C06": dict(
+        technique="exhaustive enumeration of architectures and of every random-mask draw (choice-tree DFS with stateless replay of the constructor under a torch.randint seam); structural reachability model over the registered masks + conformance of the model to the real forward (witness-weight Jacobian pattern, invariance under replacement)",
+        text="Both MADE implementations (and MixtureOfGaussiansMADE) are built for every (features 1..4/5, hidden 1..6, blocks 0..2, residual/feed-forward, context, output multiplier, "
+        "batch-norm) combination and, for random masks, for every answer torch.randint can give (sorted degree vectors per layer). The dependency relation computed from the mask buffers "
+        "must be strictly autoregressive - which decides the property for all weight values - and must coincide with the non-zero pattern of the autograd Jacobian of the real forward "
+        "under witness weights; for two weight patterns in eval and train mode (dropout, batch-norm) block f must not change when inputs >= f are replaced.",
+        note="sorted random degree vectors (exchangeable hidden units); cap per architecture reported in the evidence; feature-major output layout",
+        ref="DESIGN.md 4/C06",
+    ),
     "C09": dict(
         technique="bounded-exhaustive product exploration of the real spline functions on sorted grids concentrated on knots, ulp neighbours, end-points and the tail junction; invariant oracles (monotone, continuous, pinned end-points, exact containment, identity in tails)",
         text="All four spline families x bin counts 1..5 x three boxes and four tail bounds (1 .. 1000) x parameter patterns (all-zero up to strongly non-uniform) x float64/float32 x both "
